@@ -50,7 +50,7 @@ def _schedules(t: int, ka: int, ko: int, kx: int, nn: bool, cfg: int, s0: int, s
     pre: not shared or (ka == 1 and ko == 1 and kx == 1) or (thorough() and t < 6)
     pre: 0 <= t < len(W.TEMPLATES) and (t < NT or t >= 8) and 0 <= ka <= 3 and 0 <= ko <= 3 and 0 <= kx <= 3 and 0 <= cfg <= 3
     pre: 0 <= s0 <= 7 and 0 <= s1 <= 6 and 0 <= s2 <= 5 and 0 <= s3 <= 4 and 0 <= s4 <= 3 and 0 <= s5 <= 2 and 0 <= s6 <= 1 and s7 == 0
-    pre: shard_of(t * 4 + cfg)
+    pre: shard_of(t * 4 + cfg + ex + s0 * 5)
     pre: world_in_tier(ka, ko, kx, t)
     post: _
     """
@@ -107,7 +107,7 @@ def world_in_tier(ka, ko, kx, t) -> bool:
 
 CONDITIONS = [
     Cond(
-        name="schedules", fn=_schedules, quick=150, thorough=1200, per_path=60, shards_quick=16, shards_thorough=32,
+        name="schedules", fn=_schedules, quick=240, thorough=1200, per_path=60, shards_quick=16, shards_thorough=32,
         bound="7 operation templates (flat, nested, list, abstract, same-key merge, mutation, a scalar whose serialize raises ResolverError while the value is completed, a list with falsy non-null entries) x resolver kind in {default, custom value, ResolverError, unexpected exception} for 3 field groups x class of the unexpected "
               "exception (ValueError, KeyError, and the library's own UnknownEnumValue, CoercionError, GraphQLError, ExecutionError, ScalarSerializationError) "
               "(quick: at most one group deviates from 'custom value') x Int! null or not x 4 executor/runtime configurations x separate resolver functions or ONE function object shared by all custom fields (quick: shared only in the all-custom world) x EVERY completion order of the in-flight tasks (<= 6 tasks)",
